@@ -103,6 +103,9 @@ func run(repo, prop, tier, evPath, verifDir string, seed int, rules []ruleSpec, 
 		r.run(c, prop)
 		nd, nv, nn, nu := 0, 0, 0, 0
 		for _, o := range c.obls[n0:] {
+			if o.Control {
+				continue
+			}
 			switch o.Status {
 			case StDischarged:
 				nd++
